@@ -214,6 +214,7 @@ var filters = []namedFilter{
 	{"nostate", compile.IncludeState(false), func(d *dnode) bool { return d.cfg || d.opd }},
 	{"opd+state", compile.Include(compile.IsOpd, compile.IsState), func(d *dnode) bool { return !d.cfg }},
 	{"excl-opd-state", compile.Exclude(compile.IsOpd, compile.IsState), func(d *dnode) bool { return d.cfg }},
+	{"keep-all", func(schema.Node) bool { return true }, func(d *dnode) bool { return true }},
 }
 
 const opdExtModule = `module vyatta-opd-extensions-v1 { namespace "urn:vyatta.com:mgmt:vyatta-opd-extensions:1"; prefix opd;
@@ -251,8 +252,9 @@ func genYFilter(r *Rng, tier string, n int, emit func(Case)) {
 }
 
 func compileAll(texts ...string) (schema.ModelSet, error) {
-	// a filter that keeps everything: the unfiltered compile
-	return compileTexts(func(schema.Node) bool { return true }, texts...)
+	// "without a filter" is what the API calls it: a nil filter (a filter that keeps everything is one of the
+	// filters compared with it)
+	return compileTextsRaw(nil, texts...)
 }
 
 func errClass(err error) string {
